@@ -1,6 +1,6 @@
 INIT GInit
 NEXT GNext
-CONSTANT Big = FALSE
+CONSTANT Big = FALSE Wide = FALSE
 VIEW View
 ACTION_CONSTRAINT Emit
 CHECK_DEADLOCK FALSE
